@@ -85,7 +85,7 @@ EpSqOf(e) == IF e = <<45>> THEN -1 ELSE SqOf(e[1] - 97, e[2] - 49)
 AsPos(bs) == [b |-> bs.b, stm |-> bs.stm, cr |-> bs.cr, ep |-> IF bs.epsq = -1 THEN -1 ELSE FileOf(bs.epsq), hmc |-> bs.hmc, fmn |-> bs.fmn]
 BoardAspectOk(bs) == LET p == AsPos(bs) IN OneKingEach(p) /\ KingsApart(p) /\ Material(p) /\ NoBackRankPawns(p) /\ OppNotInCheck(p)
 RightsAspectOk(bs) == RightsBacked(AsPos(bs))
-EpAspectOk(bs) == bs.epsq = -1 \/ (RankOf(bs.epsq) = (IF bs.stm = 0 THEN 5 ELSE 2) /\ EpBacked(AsPos(bs)))
+EpAspectOk(bs) == bs.epsq = -1 \/ (RankOf(bs.epsq) = (IF bs.stm = 0 THEN 5 ELSE 2) /\ EpBacked(AsPos(bs)) /\ EpCheckConsistent(AsPos(bs)))
 HmcAspectOk(bs) == bs.hmc <= 100
 FmnAspectOk(bs) == bs.fmn >= 1 /\ bs.fmn <= 65535
 \* the aspects of a state that are wrong, each judged on its own
